@@ -278,6 +278,6 @@ META = {
     "technique": "table-driven adjacency analysis (longest-match tokenisation of every prefix-operator pair computed from the repository's operator table) checked against the printers' stream chains: every separator-free path from operator to operand is enumerated and decided per fusing pair from its branch facts (three-valued); sibling rule over all expression node classes (stored children vs printed children); shared escape-symmetry checks",
     "level": "Static decision that wherever two prefix operators written apart would fuse into another token under the tokenizer's longest-match rule the printer separates them, that binary operators are printed with separators "
              "(only member/scope operators tight), that string and character literals are escaped invertibly with agreeing delimiters, that each of the expression node classes prints every child it stores in source order, and that "
-             "explicit parentheses are printed. These hold for every parsed program; the tests print a fixed set of expressions.",
-    "note": "Does not decide evaluation equivalence of printed programs nor statement/declaration printers (value-level / not anchored to a finite table). An outside dynamic probe (DESIGN 10.9, probes/P15) found printer / parser defects no rule here reports: a cast followed by `(` or a sign is mis-parsed, adjacent string literals are merged textually, literal prefixes and raw strings are dropped, sizeof gains parentheses on every print, a declaration used as a condition prints a stray `;`.",
+             "explicit parentheses are printed exactly once, and that no printer edits a copy of a stored field before streaming it. These hold for every parsed program; the tests print a fixed set of expressions.",
+    "note": "Does not decide evaluation equivalence of printed programs nor statement/declaration printers (value-level / not anchored to a finite table). An outside dynamic probe (DESIGN 10.9, probes/P15) found printer / parser defects no rule here reports: a cast followed by `(` or a sign is mis-parsed, adjacent string literals are merged textually, literal prefixes and raw strings are dropped, a declaration used as a condition prints a stray `;` (the sizeof finding was fixed and is decided by C15-R4).",
 }
